@@ -35,6 +35,11 @@ func (s stubCtx) CurrentScriptHasGroup(k *keys.PublicKey) (bool, error) {
 }
 func (s stubCtx) IsCalledByEntry() bool { return s.w.calledByEntry() }
 
+// Further methods of the VM a matching context may be asked for (the stub
+// answers them from the same frame list, so that the check keeps building and
+// judging if the interface the conditions use is widened or re-cut).
+func (s stubCtx) GetEntryScriptHash() util.Uint160 { return s.w.frames[0].hash }
+
 type mkey struct {
 	kind  byte
 	depth int8
